@@ -67,6 +67,10 @@ func c02Monitor(run *ev.Run, spec world.Spec) hMonitor {
 		if len(o.TokenReqs) > 0 {
 			run.Class(fmt.Sprintf("%s|%s|ok=%v|code=%v", path, ans, o.Res.OK, o.Res.Code))
 		}
+		// (0) nothing becomes part of a session behind the store interface (where validation precedes every write)
+		if strings.HasPrefix(o.Drift, "tokens:") {
+			viol("session-content-changed-behind-the-store-interface path="+path, o.Drift+" - tokens/login state reached a session without a store write, i.e. without passing the validation that precedes every write", hist, o.Event)
+		}
 		// (i) what gets bound
 		for _, c := range o.Calls {
 			if c.Method != "SetTokenResponse" || c.Tokens == nil {
